@@ -2,6 +2,7 @@
 import os
 
 import common as C
+import validout
 
 CORPUS = os.path.join(C.VERIF, "corpus", "C05")
 
@@ -11,7 +12,7 @@ def build(ctx):
     ctx.log("translate", out)
     if not ok:
         ctx.diag.append("translator failed: " + out[-300:])
-    C.prove(ctx, ["Props/C05.v"], ["Oblig/C05Obl.v"])
+    C.prove(ctx, ["Props/C05.v", "Props/C05Valid.v"], ["Oblig/C05Obl.v", "Oblig/ValidOutObl.v"])
     ok, out = C.build_harness()
     ctx.log("go build", out)
     if not ok:
@@ -75,6 +76,7 @@ def run(ctx):
         ctx.compare("histories: Batch.build / AddEntry / File.Create", os.path.join(d, "model.txt"), os.path.join(d, "impl.txt"))
     else:
         ctx.diag.append("correspondence could not run: " + out[-300:])
+    validout.run(ctx, "create")
     summ = oracle(ctx, ctx.scale(6000, 100000), ctx.scale(4, 8))
     ctx.add_summary(summ, "Create/AddEntry/File.Create history oracle")
     if ctx.tier == "thorough":
